@@ -73,3 +73,32 @@ def run_all(ctx, tier):
             ctx.violation('bounded/strings', 'string:mixed', 'string %r emits %s, expected %s' % (s, got.get(j + 1, b'').hex(), want.hex()),
                           {'source': 'string ' + s}, confirmed=True)
             break
+
+    # trailing white space belongs to the text (the text runs to the end of the line), inline source and source file alike
+    import os
+    import tempfile
+    tails = ['hello ', 'Name:   ', 'tab\t'.replace('\\t', '\t'), 'x \t ', 'grüße ', '日本語  ', 'a b  c ', 'ends with escape\\n ', 'q\t\t']
+    tails = [t.replace('\\t', '\t') for t in tails]
+    src = ''.join('string %s\n' % t for t in tails)
+    d = tempfile.mkdtemp(prefix='bbstr_')
+    try:
+        path = os.path.join(d, 'tails.asm')
+        with open(path, 'w', newline='') as f:
+            f.write(src)
+        for how, arg in (('inline', src), ('file', path)):
+            rs = r.chunks(arg, False)
+            if 'ok' not in rs:
+                ctx.violation('bounded/strings', 'string:refused', 'strings with trailing white space refused (%s): %s %s' % (how, rs.get('exc'), rs.get('msg', '')[:200]),
+                              {'source': src, 'observed': rs}, confirmed=True)
+                continue
+            got = {c[0]: bytes.fromhex(c[2]) for c in rs['chunks']}
+            for j, t in enumerate(tails):
+                ctx.b_eval('strings', ('tail', how, t), nontrivial=True, sample={'line': 'string ' + t})
+                want = expected(t)
+                if got.get(j + 1) != want:
+                    ctx.violation('bounded/strings', 'string:trailing-white-space', 'string %r (%s) emits %r, expected %r' % (t, how, got.get(j + 1, b''), want),
+                                  {'source': 'string ' + t, 'how': how}, confirmed=True)
+                    break
+    finally:
+        import shutil
+        shutil.rmtree(d, ignore_errors=True)
